@@ -138,6 +138,7 @@ impl Point {
     /// If the source length is exactly 32 bytes, then the decoding
     /// outcome (success or failure) should remain hidden from
     /// timing-based side channels.
+    #[cfg_attr(pornin_crrl_verif_cut, inline(never))]
     pub fn set_decode(&mut self, buf: &[u8]) -> u32 {
         // Check that the input length is correct.
         if buf.len() != 32 {
@@ -185,6 +186,7 @@ impl Point {
     /// Encodes this point into exactly 32 bytes.
     ///
     /// Encoding is always canonical.
+    #[cfg_attr(pornin_crrl_verif_cut, inline(never))]
     pub fn encode(self) -> [u8; 32] {
         // - Choose the element representant whose e coordinate is
         //   non-negative.
@@ -807,6 +809,7 @@ impl Point {
     ///
     /// This operation is constant-time with regard to both the points
     /// and the scalar value.
+    #[cfg_attr(pornin_crrl_verif_cut, inline(never))]
     pub fn set_mul(&mut self, n: &Scalar) {
         // Split the scalar with the endomorphism.
         let (n0, s0, n1, s1) = Self::split_mu(n);
@@ -883,6 +886,7 @@ impl Point {
     ///
     /// This operation is constant-time. It is faster than using the
     /// generic multiplication on `Self::BASE`.
+    #[cfg_attr(pornin_crrl_verif_cut, inline(never))]
     pub fn set_mulgen(&mut self, n: &Scalar) {
         // Split the scalar with the endomorphism.
         let (n0, s0, n1, s1) = Self::split_mu(n);
@@ -1016,6 +1020,7 @@ impl Point {
     ///
     /// THIS FUNCTION IS NOT CONSTANT-TIME; it shall be used only with
     /// public data.
+    #[cfg_attr(pornin_crrl_verif_cut, inline(never))]
     pub fn set_mul_add_mulgen_vartime(&mut self, u: &Scalar, v: &Scalar) {
         // Split the first scalar with the endomorphism.
         let (u0, s0, u1, s1) = Self::split_mu(u);
@@ -1154,6 +1159,7 @@ impl Point {
     ///
     /// THIS FUNCTION IS NOT CONSTANT-TIME; it shall be used only with
     /// public data.
+    #[cfg_attr(pornin_crrl_verif_cut, inline(never))]
     pub fn set_mul128_add_mulgen_vartime(&mut self, u: u128, v: &Scalar) {
         // Recode the integer and scalar in 5-bit wNAF.
         let sdu = Self::recode_u128_NAF(u);
@@ -1854,6 +1860,7 @@ impl PublicKey {
 /// are provided. Use an empty string for `hash_name` if the `data`
 /// is raw (unhashed). This function is used for both signature generation
 /// and signature verification.
+#[cfg_attr(pornin_crrl_verif_cut, inline(never))]
 fn make_challenge(R: &Point, enc_pk: &[u8; 32], hash_name: &str, data: &[u8])
     -> [u8; 16]
 {
